@@ -49,7 +49,7 @@ ROLES = {'amr': [':mod', ':mod-of~e.4', ':ARG0', ':location~1', ':ARG1-of'],
          'custom': [':r', ':r-of~x3', ':q1', ':q1-of~2', ':t'],
          'default': [':mod', ':mod-of', ':ARG0']}
 ATOMS = ['a', '_', '7', 'x~2']
-CONCEPTS = ['y', 'z~3', NO_CONCEPT]
+CONCEPTS = ['y', 'z~3', NO_CONCEPT, '_']
 VARNAMES = ['a', '_', '_2', 'b']
 
 
@@ -168,23 +168,27 @@ def h_f4_witness(role: str):
     check_roundtrip(g, real, ref, role)
 
 
-def h_guards(extra: bool, is_top: bool, referenced: bool, inverted: bool):
+_EXTRA = ['', ' :ARG3 z', ' :ARG2 w']   # none / third role / repeated role
+
+
+def h_guards(extra: int, is_top: bool, referenced: bool, inverted: bool):
     """dereify_edges never collapses a node that has another relation, is the
     top, or is referenced elsewhere; otherwise it does collapse it."""
     import penman
     from penman import transform
+    bound_int(extra, 0, 3)
     real, ref = models.get('amr')
-    inner = '(_ / have-mod-91 :ARG2 (b / y)' + (' :ARG3 z' if extra else '') \
+    inner = '(_ / have-mod-91 :ARG2 (b / y)' + _EXTRA[extra] \
         + ')'
     if is_top:
         text = '(_ / have-mod-91 :ARG1 (a / x) :ARG2 (b / y)' + \
-            (' :ARG3 z' if extra else '') + \
+            _EXTRA[extra] + \
             (' :ARG0-of (c / w :ARG1 _)' if referenced else '') + ')'
     else:
         # the reified node hangs off a, nested (inverted) or after b's node
         link = (':ARG1-of ' + inner) if not inverted else \
             (':ARG0 (b / y) :ARG1-of (_ / have-mod-91 :ARG2 b'
-             + (' :ARG3 z' if extra else '') + ')')
+             + _EXTRA[extra] + ')')
         text = '(a / x ' + link + (' :ARG5 _' if referenced else '') + ')'
     g = penman.decode(text, model=real)
     before = list(g.triples)
@@ -194,7 +198,7 @@ def h_guards(extra: bool, is_top: bool, referenced: bool, inverted: bool):
         g2 = penman.decode(s, model=real)
     except Exception as exc:
         raise Violation(f'{type(exc).__name__}: {exc}', text)
-    must_keep = extra or is_top or referenced
+    must_keep = extra != 0 or is_top or referenced
     collapsed = '_' not in d.variables()
     if must_keep:
         mark('kept')
